@@ -191,6 +191,10 @@ class UInterp(mirsym.Interp):
             return cont(st, Opaque('unit'))
         if n.endswith('mem::forget'):
             return cont(st, Opaque('unit'))
+        if n.endswith('ManuallyDrop::drop'):
+            # drops the wrapped value in place: its type is the generic argument of the call
+            ty = s.generic_arg(getattr(s, '_raw_callee', ''))
+            return s.drop_value(st, ty, args[0], 0, lambda st2: cont(st2, Opaque('unit')), unw)
         if n.endswith('drop_in_place'):
             p0 = args[0]
             if isinstance(p0, Ptr) and p0.root[0] == 'H' and p0.path in ((), (1,)):
